@@ -39,9 +39,6 @@ func From8Bit(v uint8) float32 {
 //
 // This implementation uses a fast look-up table without sacrificing accuracy.
 func From16Bit(v uint16) float32 {
-	if encoded16ToLinearLUT != nil {
-		return encoded16ToLinearLUT[v]
-	}
 	return from16BitAndInitLUT(v)
 }
 
@@ -68,9 +65,6 @@ func To8Bit(v float32) uint8 {
 // This implementation uses a fast look-up table and is approximate. For more
 // accuracy, see ConvertLinearTo16Bit.
 func To16Bit(v float32) uint16 {
-	if linearToEncoded16LUT != nil {
-		return linearToEncoded16LUT[linear.NormalisedTo16Bit(v)]
-	}
 	return to16BitAndInitLUT(v)
 }
 
